@@ -10,6 +10,11 @@
 //!   i2s <n>               Str.fromInt(n)
 //!   s2i <hex utf8>        Str.fromInt("<text>".toInt())   text = plain characters only
 //!   vec [new:of:v|new:cap:n] <op> ...   push:v pop get:i set:i:v len cap res:n on one Vec<int>; prints u / v<n> per call
+//!   tag none|other|box|vec <n|->   match on a run-time chosen variant of an enum whose payload (a one-field
+//!                         struct or a Vec<int>) is unboxed: tests the value against the i31 tags first
+//!   vecr push:k pop get:i set:i:k len     the same on a Vec<Box> of four run-time objects o0..o3 (o2, o3 equal
+//!                         content, different identity); a read prints which object came back (by ==)
+//!   veqr <a> <b>          Vec<Box>.eq on vectors of these objects (element-wise identity)
 //!   veq <a> <b>           two Vec<int> built by push (elements comma separated, `-` = empty): a.eq(b), b.eq(a), a.eq(a)
 //!   seq <hexA> <na> <hexB> <nb>   a = "A" :: Str.fromInt(na), b likewise (run-time strings): a == b, a != b, a :: b
 //! stdout: per line  `T <hex text> <hex end|-> W <hex text> <hex end|->`   (TypeScript, WebAssembly)
@@ -24,6 +29,8 @@ use std::time::Duration;
 
 const BATCH: usize = 40;
 const MARK: &str = "@@";
+/// four run-time objects; o2 and o3 have the same content
+const OBJS: &str = "    let o0 = Box.init(\"100\".toInt());\n    let o1 = Box.init(\"101\".toInt());\n    let o2 = Box.init(\"102\".toInt());\n    let o3 = Box.init(\"102\".toInt());\n";
 
 fn int_lit(n: &str) -> Option<String> {
   let ok = {
@@ -67,6 +74,72 @@ fn snippet(line: &str) -> Option<String> {
         return None;
       }
       Some(p(format!("Str.fromInt(\"{s}\".toInt())")))
+    }
+    ["tag", kind, arg] => {
+      // variant test on a run-time chosen value: payload-free variants first, so the emitted code
+      // compares the value (possibly an unboxed payload object) with the i31 tags
+      let (k, payload_b, payload_v) = match *kind {
+        "none" => (0, "Box.init(0)".to_string(), "Vec.empty<int>()".to_string()),
+        "other" => (2, "Box.init(0)".to_string(), "Vec.empty<int>()".to_string()),
+        "box" => (1, format!("Box.init({})", int_lit(arg)?), "Vec.empty<int>()".to_string()),
+        "vec" => (
+          1,
+          "Box.init(0)".to_string(),
+          if *arg == "-" { "Vec.empty<int>()".to_string() } else { format!("Vec.of<int>({})", int_lit(arg)?) },
+        ),
+        _ => return None,
+      };
+      let mut s = format!("    let k = \"{k}\".toInt();\n");
+      if *kind == "vec" {
+        s.push_str(&format!("    let o = if k == 1 {{ OptV.Some({payload_v}) }} else {{ if k == 2 {{ OptV.Other() }} else {{ OptV.None() }} }};\n"));
+        s.push_str(&p("OptV.show(o)".to_string()));
+      } else {
+        s.push_str(&format!("    let o = if k == 1 {{ OptB.Some({payload_b}) }} else {{ if k == 2 {{ OptB.Other() }} else {{ OptB.None() }} }};\n"));
+        s.push_str(&p("OptB.show(o)".to_string()));
+      }
+      Some(s)
+    }
+    ["vecr", ops @ ..] => {
+      // Vec of references: four objects, o2 and o3 with equal content but different identity
+      let mut s = String::from(OBJS);
+      s.push_str("    let v = Vec.empty<Box>();\n");
+      let obj = |k: &str| -> Option<String> { if ["0", "1", "2", "3"].contains(&k) { Some(format!("o{k}")) } else { None } };
+      for o in ops {
+        let f: Vec<&str> = o.split(':').collect();
+        match f.as_slice() {
+          ["push", k] => {
+            s.push_str(&format!("    let _ = v.push({});\n", obj(k)?));
+            s.push_str(&p("\"u\"".to_string()));
+          }
+          ["pop"] => s.push_str(&p("\"v\" :: Main.idOf(v.pop(), o0, o1, o2)".to_string())),
+          ["get", i] => s.push_str(&p(format!("\"v\" :: Main.idOf(v.get({}), o0, o1, o2)", int_lit(i)?))),
+          ["set", i, k] => {
+            s.push_str(&format!("    let _ = v.set({}, {});\n", int_lit(i)?, obj(k)?));
+            s.push_str(&p("\"u\"".to_string()));
+          }
+          ["len"] => s.push_str(&p("\"v\" :: Str.fromInt(v.length())".to_string())),
+          _ => return None,
+        }
+      }
+      Some(s)
+    }
+    ["veqr", a, b] => {
+      let mut s = String::from(OBJS);
+      for (name, elems) in [("a", a), ("b", b)] {
+        s.push_str(&format!("    let {name} = Vec.empty<Box>();\n"));
+        if *elems != "-" {
+          for e in elems.split(',') {
+            if !["0", "1", "2", "3"].contains(&e) {
+              return None;
+            }
+            s.push_str(&format!("    let _ = {name}.push(o{e});\n"));
+          }
+        }
+      }
+      for (x, y) in [("a", "b"), ("b", "a"), ("a", "a")] {
+        s.push_str(&p(format!("\"v\" :: Str.fromInt(if {x}.eq({y}) {{ 1 }} else {{ 0 }})")));
+      }
+      Some(s)
     }
     ["veq", a, b] => {
       let mut s = String::new();
@@ -203,7 +276,11 @@ fn main() {
   let mut answers: Vec<String> = vec![String::new(); lines.len()];
   let mut progs: Vec<Prog> = Vec::new();
   let mut cur: Option<Prog> = None;
-  let wrap = |body: &str| format!("class Main {{\n  function main(): unit = {{\n{body}  }}\n}}\n");
+  let wrap = |body: &str| {
+    format!(
+      "class Box(val v: int) {{}}\nclass OptB(None, Other, Some(Box)) {{\n  function show(o: OptB): Str = match o {{ None -> \"none\", Other -> \"other\", Some(b) -> \"some \" :: Str.fromInt(b.v) }}\n}}\nclass OptV(None, Other, Some(Vec<int>)) {{\n  function show(o: OptV): Str = match o {{ None -> \"none\", Other -> \"other\", Some(v) -> \"some \" :: Str.fromInt(v.length()) }}\n}}\nclass Main {{\n  function idOf(x: Box, o0: Box, o1: Box, o2: Box): Str = if x == o0 {{ \"0\" }} else {{ if x == o1 {{ \"1\" }} else {{ if x == o2 {{ \"2\" }} else {{ \"3\" }} }} }}\n  function main(): unit = {{\n{body}  }}\n}}\n"
+    )
+  };
   for (i, raw) in lines.iter().enumerate() {
     let (solo, l) = match raw.strip_prefix('!') {
       Some(r) => (true, r),
@@ -214,7 +291,7 @@ fn main() {
       continue;
     };
     let sn = format!("{sn}    let _ = Process.println(\"{MARK}\");\n");
-    if solo || l.starts_with("vec") || l.starts_with("veq") || l.starts_with("seq") {
+    if solo || l.starts_with("vec") || l.starts_with("veq") || l.starts_with("vecr") || l.starts_with("seq") || l.starts_with("tag") {
       progs.push(Prog { idx: vec![i], source: sn });
     } else {
       let c = cur.get_or_insert_with(|| Prog { idx: vec![], source: String::new() });
